@@ -6,8 +6,9 @@ import ftutil as U
 
 ID = "C15"
 THEOREMS = ["C15_transparent", "C15_counts_mul_update", "C15_counts_add_rule",
-            "C15_counts_add_partial", "C15_iters", "C15_state_counts", "C15_state_iters",
-            "C15_isolated", "C15_intersection_is_set_intersection", "C15_model_meets_spec"]
+            "C15_counts_add", "C15_output_is_reference_map", "C15_iters", "C15_state_counts",
+            "C15_state_iters", "C15_isolated", "C15_intersection_is_set_intersection",
+            "C15_model_meets_spec"]
 COQ_IMPORTS = "From FT Require Import Model.Base Model.Obs Model.C15Metrics Model.C15Check."
 CHECK_VO = ["Model/C15Check.v"]
 CHECKER = "c15_checker"
@@ -19,28 +20,32 @@ RULE = ("case = 0-3 earlier collection sessions + the observed session; a sessio
         "two-operand einsum family Z[..] += A[..]*B[..] (per loop level the subset of Z, A, B carrying the "
         "variable: dot, mat-vec, vec-mat, mat-mat in all loop orders, outer and elementwise products, "
         "reductions with a rank-0 operand, depth 0-4) generated as Python source in the library idiom "
-        "(for v, (z, (a, b)) in z << (a & b): ... z_ref += a_val * b_val), random operand trees with explicit "
-        "zeros and empty sub-fibers, a random subset of (rank, trace type) registered with Metrics.trace "
-        "(iter, intersect_i, populate_read/write_i, populate_i), output created with or without a shape, "
-        "optional setNumCachedUses(2..7), session ended with endCollect or aborted; the observed kernel is "
-        "also run with collection off. observation = [output off, output on, dump() counts, "
-        "Compute.numOps x3, Compute.numIters of every traced loop rank]. distinct = distinct canonical JSON; "
-        "non-trivial = the observed kernel executes at least one innermost statement")
+        "(for v, (z, (a, b)) in z << (a & b): ... z_ref += a_val * b_val); per operand rank compressed or "
+        "uncompressed ('U': every coordinate of the shape is visited, absent ones with the default); operand "
+        "leaf default 0, 3 or -2 with explicit default and explicit 0 payloads; signed values (products and "
+        "partial sums that are 0 or cancel), rank-0 operands incl. 0; empty sub-fibers; a random subset of "
+        "(rank, trace type) registered with Metrics.trace (iter, intersect_i, populate_read/write_i, "
+        "populate_i), output created with or without a shape, optional setNumCachedUses(2..7), session "
+        "ended with endCollect or aborted; the observed kernel is also run with collection off. "
+        "observation = [output off, output on, dump() counts, Compute.numOps x3, Compute.numIters of every "
+        "traced loop rank]. distinct = distinct canonical JSON; non-trivial = the observed kernel executes "
+        "at least one innermost statement")
 TRUSTED = ["Coq 8.16.1 kernel (coqc; coqchk in the thorough tier); vm_compute used; native_compute not used",
            "Print Assumptions of every C15 theorem: Closed under the global context (no axioms)",
            "hand-written Gallina model coq/Model/C15Metrics.v of metrics.py / payload.py operators / the "
            "iterRange, & and << iterators, tied to /repo by the differential correspondence check of this run",
            "harness: harness/check.py, harness/props/c15.py (kernel source generator), CPython 3.12"]
-ASSUMPTIONS = ["stored operand values are >= 0 and a rank-0 operand is > 0 (no partial sum cancels to zero); "
-               "the add-count theorem is stated for this domain, see C15_counts_add_partial",
-               "a populate_write trace is registered only when the output tensor has a shape (iterators.py "
+ASSUMPTIONS = ["a populate_write trace is registered only when the output tensor has a shape (iterators.py "
                "asserts it; fix S41 narrows the assertion to exactly this case)",
                "trace rows other than the number of 'iter' rows are property C16's; the flush threshold "
                "num_cached_uses is varied by the harness but not modelled",
-               "loop nests of the einsum family; rank ids are R0, R1, ... in loop order"]
+               "loop nests of the einsum family; rank ids are R0, R1, ... in loop order; the output tensor is "
+               "compressed with default 0; integer values",
+               "a for loop directly over an uncompressed fiber logs one 'iter' access per element (fix S44)"]
 EXPLANATION = ("interpreter run emits the metric calls of the source as events only when collecting; theorems: "
                "output independent of the flag, event counts = recursive sums over the set-intersection "
-               "iteration space, Metrics state machine turns events into dump()/trace-file numbers from any "
+               "iteration space, add count = accumulations onto a non-zero value of a reference map that the "
+               "output tree refines (all integers), Metrics state machine turns events into dump()/trace-file numbers from any "
                "prior state; oracle c15_holds evaluated on the implementation's numbers")
 
 TYPES = ["iter", "intersect_0", "intersect_1", "populate_read_0", "populate_write_0", "populate_1",
@@ -69,16 +74,22 @@ FAMILY = {
 }
 
 
-def gen_session(rng, name=None, final=False, sparse=None):
+def gen_session(rng, name=None, final=False, sparse=None, zero_heavy=False):
     name = name or rng.choice(list(FAMILY))
-    lv = [list(x) for x in FAMILY[name]]
-    shapes = [rng.randint(1, 4) for _ in lv]
-    sa = [s for s, l in zip(shapes, lv) if l[1]]
-    sb = [s for s, l in zip(shapes, lv) if l[2]]
+    shapes = [rng.randint(1, 4) for _ in FAMILY[name]]
+    pu = rng.choice([0.0, 0.3, 0.3, 0.7, 1.0]) if not zero_heavy else 0.8
+    lv = []
+    for (z, a, b), sh in zip(FAMILY[name], shapes):
+        lv.append([z, a, b, int(bool(a) and rng.random() < pu), int(bool(b) and rng.random() < pu), sh])
+    sa = [l[5] for l in lv if l[1]]
+    sb = [l[5] for l in lv if l[2]]
+    da, db = rng.choice([0, 0, 0, 3, -2]), rng.choice([0, 0, 0, 3, -2])
     pa = sparse if sparse is not None else rng.choice([0.0, 0.2, 0.4, 0.7])
-    kw = dict(p_absent=pa, p_zero=rng.choice([0.0, 0.2, 0.4]), p_emptysub=rng.choice([0.0, 0.15, 0.3]))
-    a = U.gen_fiber(rng, len(sa), sa, 0, **kw) if sa else rng.randint(1, 5)
-    b = U.gen_fiber(rng, len(sb), sb, 0, **kw) if sb else rng.randint(1, 5)
+    kw = dict(p_absent=pa, p_zero=rng.choice([0.0, 0.2, 0.4]), p_emptysub=rng.choice([0.0, 0.15, 0.3]),
+              vals=rng.choice([(1, 9), (-4, 5), (-2, 2)]))
+    r0 = (lambda: rng.choice([0, 0, 1, -1, 2, 3, -3])) if zero_heavy else (lambda: rng.randint(-3, 5))
+    a = U.gen_fiber(rng, len(sa), sa, da, **kw) if sa else r0()
+    b = U.gen_fiber(rng, len(sb), sb, db, **kw) if sb else r0()
     zshape = rng.random() < 0.5
     traces = []
     for r in range(len(lv)):
@@ -87,8 +98,8 @@ def gen_session(rng, name=None, final=False, sparse=None):
             if rng.random() < p and (zshape or ty != 4):
                 traces.append([r, ty])
     rng.shuffle(traces)
-    return {"kernel": name, "lv": lv, "shapes": shapes, "a": a, "b": b, "traces": traces,
-            "zshape": zshape, "ncu": rng.choice([None, None, 2, 3, 7]),
+    return {"kernel": name, "lv": lv, "a": a, "b": b, "da": da if sa else 0, "db": db if sb else 0,
+            "traces": traces, "zshape": zshape, "ncu": rng.choice([None, None, 2, 3, 7]),
             "end": True if final else rng.random() < 0.7}
 
 
@@ -108,7 +119,16 @@ def stale_case(rng):
     f["traces"] = [[r, 0] for r in range(len(f["lv"]))]
     if rng.random() < 0.7:
         f["a"] = [] if not isinstance(f["a"], int) else f["a"]
+        for l in f["lv"]:
+            l[3] = 0      # compressed, so that the empty operand stops the nest
     return {"prior": [p], "final": f}
+
+
+def zero_case(rng):
+    """uncompressed ranks, zero rank-0 operands, explicit zeros under a non-zero default: the
+    innermost statement runs with an addend of exactly 0"""
+    return {"prior": [gen_session(rng)] if rng.random() < 0.3 else [],
+            "final": gen_session(rng, final=True, zero_heavy=True)}
 
 
 def streams(tier, rng):
@@ -117,27 +137,41 @@ def streams(tier, rng):
     yield ("family", fam, False)
     yield ("random", [gen_case(rng) for _ in range(n)], False)
     yield ("stale-files", [stale_case(rng) for _ in range(120 if tier == "quick" else 1200)], False)
+    yield ("zero-addends", [zero_case(rng) for _ in range(250 if tier == "quick" else 3000)], False)
 
 
-def _leafs(lv, a, b):
+def _op_elems(u, shape, d, below, t):
+    if u:
+        dt = dict((c, x) for c, x in t)
+        return [(c, dt.get(c, [] if below else d)) for c in range(shape)]
+    return [(c, x) for c, x in t if not U.is_empty_lit(x, d)]
+
+
+def _trace(lv, a, b, da, db):
+    """addends of the innermost statement, in program order (harness statistics only)"""
     if not lv:
-        return 1
-    z, fa, fb = lv[0]
-    def pres(t):
-        return [(c, s) for c, s in t if not U.is_empty_lit(s, 0)]
+        return [a * b]
+    z, fa, fb, ua, ub, sh = lv[0]
+    ba = any(l[1] for l in lv[1:])
+    bb = any(l[2] for l in lv[1:])
+    ea = _op_elems(ua, sh, da, ba, a) if fa else None
+    eb = _op_elems(ub, sh, db, bb, b) if fb else None
     if fa and fb:
-        db = dict(pres(b))
-        els = [(s, db[c]) for c, s in pres(a) if c in db]
+        dbm = dict(eb)
+        els = [(x, dbm[c]) for c, x in ea if c in dbm]
     elif fa:
-        els = [(s, b) for c, s in pres(a)]
+        els = [(x, b) for c, x in ea]
     else:
-        els = [(a, s) for c, s in pres(b)]
-    return sum(_leafs(lv[1:], x, y) for x, y in els)
+        els = [(a, x) for c, x in eb]
+    out = []
+    for x, y in els:
+        out += _trace(lv[1:], x, y, da, db)
+    return out
 
 
 def nontrivial(case):
     f = case["final"]
-    return _leafs(f["lv"], f["a"], f["b"]) > 0
+    return len(_trace(f["lv"], f["a"], f["b"], f["da"], f["db"])) > 0
 
 
 def describe(case):
@@ -146,14 +180,19 @@ def describe(case):
             "prior_aborted": any(not s["end"] for s in case["prior"]),
             "zshape": f["zshape"], "iter_traces": sum(1 for k in f["traces"] if k[1] == 0),
             "other_traces": sum(1 for k in f["traces"] if k[1] != 0),
+            "uncompressed_ranks": sum(l[3] + l[4] for l in f["lv"]),
+            "nonzero_default": bool(f["da"] or f["db"]),
+            "zero_addend": any(v == 0 for v in _trace(f["lv"], f["a"], f["b"], f["da"], f["db"])),
+            "negative_addend": any(v < 0 for v in _trace(f["lv"], f["a"], f["b"], f["da"], f["db"])),
             "no_body": not nontrivial(case)}
 
 
 def _session_coq(s):
-    lv = L.lst("(%s, %s, %s)" % (L.b(z), L.b(a), L.b(b)) for z, a, b in s["lv"])
+    lv = L.lst("(Build_level %s %s %s %s %s %s)" % (L.b(z), L.b(a), L.b(b), L.b(ua), L.b(ub), L.z(sh))
+               for z, a, b, ua, ub, sh in s["lv"])
     tr = L.lst("(%s, %s)" % (L.z(r), L.z(t)) for r, t in s["traces"])
-    return "(Build_session %s %s %s %s %s %s)" % (lv, L.tree(s["a"]), L.tree(s["b"]), tr,
-                                                   L.b(s["zshape"]), L.b(s["end"]))
+    return "(Build_session %s %s %s %s %s %s %s %s)" % (lv, L.tree(s["a"]), L.tree(s["b"]), L.z(s["da"]),
+                                                         L.z(s["db"]), tr, L.b(s["zshape"]), L.b(s["end"]))
 
 
 def case_to_coq(c):
@@ -167,7 +206,7 @@ def kernel_source(lv):
     lines = []
     z, a, b = "z0", "a0", "b0"
     ind = ""
-    for i, (fz, fa, fb) in enumerate(lv):
+    for i, (fz, fa, fb) in enumerate(l[:3] for l in lv):
         na = "a%d" % (i + 1) if fa else a
         nb = "b%d" % (i + 1) if fb else b
         nz = "z%d" % (i + 1) if fz else z
@@ -195,18 +234,22 @@ def rank_name(i):
 
 def _build(s):
     from fibertree import Tensor, Payload
-    lv, shapes = s["lv"], s["shapes"]
+    lv = s["lv"]
+    shapes = [l[5] for l in lv]
     ids = [rank_name(i) for i in range(len(lv))]
 
-    def operand(t, col):
+    def operand(t, col, d):
         rid = [ids[i] for i, l in enumerate(lv) if l[col]]
         shp = [shapes[i] for i, l in enumerate(lv) if l[col]]
         if not rid:
             return Payload(t), None
-        T = U.build_tensor(copy.deepcopy(t), len(rid), shp, 0, rank_ids=rid)
+        T = U.build_tensor(copy.deepcopy(t), len(rid), shp, d, rank_ids=rid)
+        for i, l in enumerate(lv):
+            if l[col] and l[col + 2]:
+                T.setFormat(ids[i], "U")
         return T.getRoot(), T
-    a0, A = operand(s["a"], 1)
-    b0, B = operand(s["b"], 2)
+    a0, A = operand(s["a"], 1, s["da"])
+    b0, B = operand(s["b"], 2, s["db"])
     zid = [ids[i] for i, l in enumerate(lv) if l[0]]
     zshp = [shapes[i] for i, l in enumerate(lv) if l[0]]
     Z = Tensor(rank_ids=zid, shape=zshp) if s["zshape"] and zid else Tensor(rank_ids=zid)
@@ -335,4 +378,5 @@ def shrinks(case):
 
 
 def search(disagreeing, rng, rnd):
-    return [gen_case(rng) for _ in range(100)] + [stale_case(rng) for _ in range(50)]
+    return ([gen_case(rng) for _ in range(100)] + [stale_case(rng) for _ in range(50)]
+            + [zero_case(rng) for _ in range(50)])
